@@ -27,11 +27,46 @@ def fixture(name: str):
     return importlib.import_module("vf.fixtures." + name)
 
 
+_PRISTINE: dict = {}
+
+
+def _restore_class_attributes(fx):
+    """every path starts from the class declarations as they were when the fixture was imported:
+    what one explored path (or a seeded defect) writes into the classes' __gengy__ dictionaries
+    must not leak into the next path of the same process"""
+    import sys as _sys
+
+    mod = _sys.modules[fx.__name__] if hasattr(fx, "__name__") and fx.__name__ in _sys.modules else fx
+    classes = [c for c in vars(mod).values() if isinstance(c, type) and getattr(c, "__module__", None) == getattr(mod, "__name__", None)]
+    key = getattr(mod, "__name__", id(mod))
+    if key not in _PRISTINE:
+        _PRISTINE[key] = {c: dict(c.__dict__["__gengy__"]) if "__gengy__" in c.__dict__ else None for c in classes}
+    for c, snap in _PRISTINE[key].items():
+        if snap is None:
+            if "__gengy__" in c.__dict__:
+                try:
+                    delattr(c, "__gengy__")
+                except AttributeError:
+                    pass
+        else:
+            d = c.__dict__.get("__gengy__")
+            if d is None:
+                setattr(c, "__gengy__", dict(snap))
+            else:
+                d.clear()
+                d.update(snap)
+
+
 def make_grammar(ctx: Ctx, cfg):
     fx = fixture(cfg["fixture"])
     fn = getattr(fx, cfg.get("grammar_fn", "grammar"))
     kw = {"expansion_depthing": True} if cfg.get("expansion_depthing") else {}
-    return fx, ctx.concrete(lambda: fn(**kw))
+
+    def build():
+        _restore_class_attributes(fx)
+        return fn(**kw)
+
+    return fx, ctx.concrete(build)
 
 
 def make_decider(name: str, r, g, max_depth):
